@@ -148,7 +148,7 @@ def verifyRW (s : St) (t : Tx) : Bool :=
   t.kin.all (fun ki => curVer s ki.key == ki.ver) &&
   t.kout.all (fun ko => t.kin.any (fun ki => ki.key == ko.key))
 
-def admit (s : St) (ledgerH : Int) (t : Tx) : Res :=
+def admitTx (s : St) (ledgerH : Int) (t : Tx) : Res :=
   match checkInputEqualOutput s ledgerH t with
   | .ok => if verifyRW s t then .ok else .rwset
   | r => r
@@ -223,7 +223,7 @@ def undoPayFee (t : Tx) : List Out → Nat → St → St
 def doTx (e : Env) (s : St) (ledgerH : Int) (i : Nat) : St × Res :=
   if s.pool.contains i then (s, .inpool) else
   let t := e.tx i
-  match admit s ledgerH t with
+  match admitTx s ledgerH t with
   | .ok => ({ applyTx s t with pool := s.pool ++ [i] }, .ok)
   | r => (s, r)
 
@@ -287,7 +287,7 @@ def applyBlockTxs (e : Env) (ledgerH : Int) (prop : String) (already : List Nat)
   | i :: rest, s =>
     let t := e.tx i
     if already.contains i then applyBlockTxs e ledgerH prop already rest (payFee t prop t.outs 0 s)
-    else match admit s ledgerH t with
+    else match admitTx s ledgerH t with
       | .ok => applyBlockTxs e ledgerH prop already rest (payFee t prop t.outs 0 (applyTx s t))
       | r => some (s, r)
 
@@ -316,7 +316,7 @@ def playForMiner (e : Env) (s : St) (ledgerH : Int) (b : Block) : St × Res :=
     | i :: rest, st =>
       let t := e.tx i
       if t.coinbase then
-        match admit st ledgerH t with
+        match admitTx st ledgerH t with
         | .ok => go rest (payFee t b.prop t.outs 0 (applyTx st t))
         | _ => none
       else go rest (payFee t b.prop t.outs 0 st)
